@@ -125,7 +125,7 @@ def mk_key(k):
 
 def related_slots(st):
     out = []
-    for f in ("dst", "src", "a", "t", "r", "L", "R"):
+    for f in ("dst", "src", "a", "t", "r", "L", "R"):   # (stackdictv: a, src, dst)
         if isinstance(st.get(f), int):
             out.append(st[f])
     if isinstance(st.get("b"), list) and st["b"][0] == "slot":
@@ -178,7 +178,9 @@ def choose_step(rng, w, flavor, last=None):
                  ("T", 1), ("sort", 1), ("join", 1), ("aggregate", 1), ("window", 1), ("tarith", 1), ("fingerprint", 3),
                  ("repr", 1), ("stackdict", 1), ("append", 1), ("renames", 1)]
     if tabs and vecs:
-        menu += [("setattr", 5), ("stack", 3)]
+        menu += [("setattr", 5), ("stack", 3), ("stackdictv", 2)]
+    if tabs:
+        menu += [("setattr_list", 3)]
     if len(tabs) >= 2:
         menu += [("stack", 1), ("appendt", 1)]
     menu += [("drop", 2), ("gc", 1)]
@@ -235,6 +237,15 @@ def choose_step(rng, w, flavor, last=None):
         if nc == 0:
             return {"op": "gc"}
         return {"op": "setattr", "t": t, "j": rng.randrange(nc), "src": rng.choice(vecs)}
+    if op == "setattr_list":
+        t = rng.choice(tabs)
+        nc, n = len(w.slots[t].cols()), len(w.slots[t])
+        if nc == 0:
+            return {"op": "gc"}
+        # column replacement by attribute with a plain list (right or wrong length), through the plain accessor or the
+        # indexed form `<name>__<idx>`
+        return {"op": "setattr_list", "t": t, "j": rng.randrange(nc), "indexed": rng.random() < 0.5,
+                "vals": rand_vals(rng, n if rng.random() < 0.6 else rng.choice([n + 1, max(n - 1, 0)]), rng.choice(["int", "str"]))}
     if op == "write":
         r = rng.choice(vecs)
         n = len(w.slots[r])
@@ -282,6 +293,8 @@ def choose_step(rng, w, flavor, last=None):
         a = rng.choice(tabs)
         b = rng.choice(vecs + tabs)
         return {"op": "stack", "dst": dst, "a": a, "b": b}
+    if op == "stackdictv":
+        return {"op": "stackdictv", "dst": dst, "a": rng.choice(tabs), "name": rng.choice(["n", "a", "zz"]), "src": rng.choice(vecs)}
     if op == "stackdict":
         t = rng.choice(tabs)
         n = len(w.slots[t])
@@ -372,6 +385,17 @@ def run_step(w, st):
             t = sl[st["t"]]
             acc = [k for k, v in t._build_column_map().items() if v == st["j"]]
             setattr(t, acc[0], sl[st["src"]])
+        elif op == "setattr_list":
+            t = sl[st["t"]]
+            acc = [k for k, v in t._build_column_map().items() if v == st["j"]]
+            name = acc[0] if acc else None
+            if st.get("indexed") and name is not None:
+                import re
+                if not re.search(r"__\d+$", name) and not re.fullmatch(r"col\d+_", name):
+                    name = f"{name}{'' if name.endswith('_') else '_'}_{st['j']}"
+            if name is None:
+                raise KeyError("no accessor")
+            setattr(t, name, dvs(st["vals"]))
         elif op == "write":
             v = st["val"]
             sl[st["r"]][mk_key(st["key"])] = (dv(v[1]) if v[0] == "scalar" else dvs(v[1]))
@@ -396,6 +420,8 @@ def run_step(w, st):
             sl[st["t"]].rename_columns(list(st["olds"]), list(st["news"]))
         elif op == "stack":
             sl[st["dst"]] = sl[st["a"]] >> sl[st["b"]]
+        elif op == "stackdictv":
+            sl[st["dst"]] = sl[st["a"]] >> {st["name"]: sl[st["src"]]}
         elif op == "stackdict":
             sl[st["dst"]] = sl[st["a"]] >> {st["name"]: dvs(st["vals"])}
         elif op == "append":
@@ -473,9 +499,9 @@ def applicable(w, st):
         return kinds[i] if isinstance(i, int) and 0 <= i < NSLOTS else None
     op = st["op"]
     need = {"copy": [("src", "vt")], "slice": [("src", "vt")], "mask": [("src", "vt")], "select": [("src", "t")],
-            "getcol": [("t", "t")], "setattr": [("t", "t"), ("src", "v")], "write": [("r", "v")], "tabwrite": [("t", "t")],
+            "getcol": [("t", "t")], "setattr": [("t", "t"), ("src", "v")], "setattr_list": [("t", "t")], "write": [("r", "v")], "tabwrite": [("t", "t")],
             "setname": [("r", "v")], "rename": [("t", "t")], "renames": [("t", "t")], "stack": [("a", "t"), ("b", "vt")],
-            "stackdict": [("a", "t")], "append": [("a", "t")], "appendt": [("a", "t"), ("b", "t")], "T": [("src", "t")],
+            "stackdict": [("a", "t")], "stackdictv": [("a", "t"), ("src", "v")], "append": [("a", "t")], "appendt": [("a", "t"), ("b", "t")], "T": [("src", "t")],
             "sort": [("src", "t")], "sortv": [("src", "v")], "aggregate": [("src", "t")], "window": [("src", "t")],
             "join": [("L", "t"), ("R", "t")], "arith": [("a", "v")], "tarith": [("a", "t")], "compare": [("a", "v")],
             "unary": [("a", "v")], "fillna": [("a", "v")], "fingerprint": [("r", "vt")], "repr": [("r", "vt")],
@@ -487,7 +513,7 @@ def applicable(w, st):
         return False
     if op in ("arith", "compare", "tarith") and st["b"][0] == "slot" and k(st["b"][1]) not in ("v", "t"):
         return False
-    if op in ("getcol", "setattr"):
+    if op in ("getcol", "setattr", "setattr_list"):
         t = w.slots[st["t"]]
         if st["j"] >= len(t.cols()):
             return False
